@@ -56,8 +56,8 @@ Definition dec (n : nat) : pystr := lit (NilZero.string_of_uint (Nat.to_uint n))
 Definition decZ (z : Z) : pystr :=
   match z with
   | Z0 => lit "0"
-  | Zpos p => dec (Pos.to_nat p)
-  | Zneg p => "-"%char :: dec (Pos.to_nat p)
+  | Zpos p => lit (NilZero.string_of_uint (Pos.to_uint p))
+  | Zneg p => "-"%char :: lit (NilZero.string_of_uint (Pos.to_uint p))
   end.
 
 Definition is_digit (c : ascii) : bool :=
